@@ -3453,8 +3453,10 @@ def reconnect_matrix(prefix, tier='quick'):
     long_filter = b'f/' + b'x' * 40
     causes = ['eof', 'err', 'eof-part1', 'eof-part3', 'err-part2', 'sdisc', 'sdisc0-trail', 'sdisc-trail-part', 'udisc',
               'dropfut', 'malformed-trail', 'stray-then-eof']
-    causes += ['werr%d' % k for k in ((70, 71, 73) if tier == 'quick' else range(58, 78))]
-    causes += ['werr2-%d' % k for k in ((71,) if tier == 'quick' else (70, 71, 72, 73))]
+    # (CONNECT with cid=c sei=100 is 21 bytes, the SUBSCRIBE 52: the PUBREC of the inbound message occupies bytes 73..76 of
+    #  the first connection's output; 71/72 fall inside the SUBSCRIBE)
+    causes += ['werr%d' % k for k in ((71, 73, 74, 76) if tier == 'quick' else range(62, 77))]
+    causes += ['werr2-%d' % k for k in ((73, 75) if tier == 'quick' else (73, 74, 75, 76))]
     k = 0
     for cause in causes:
         for mark in (5, None):
@@ -3471,7 +3473,9 @@ def reconnect_matrix(prefix, tier='quick'):
                 inb = m.publish(b'a', b'first', 2, 7, 0, 0, [(11, sid)])
                 if cause.startswith('werr2-'):
                     # the faulting write is the acknowledgement of the FIRST of two packets that came in one read
-                    s.feed(inb + m.publish(b'a', b'q1', 1, 9, 0, 0, [(11, sid)]))
+                    # (behind it a packet nobody waits for: whether the client gets to it before the failing write ends
+                    #  run() is not for the oracles to guess)
+                    s.feed(inb + m.pingresp() + m.ack('puback', 99))
                 elif cause.startswith('werr'):
                     s.feed(inb)
                 else:
